@@ -3,7 +3,9 @@
 Histories: a `new ty=sv|ipv|stk cap=N kind=int|nt` line, then operation lines on up to four live
 objects (`obj=k`, `other=j`).  After every line all four objects are observed through the public API
 (size, empty, full, elements in order, front/back, operator[], reverse and const iteration) and compared
-with the Lean model (R1), with the Lean spec (R3) and the spec with libstdc++ (R2)."""
+with the Lean model (R1), with the Lean spec (R3) and the spec with libstdc++ (R2).  A line is valid when its
+documented precondition holds in the *spec* state (Tetl.C01.Spec.valid, the hypothesis of history_refines): an object
+the standard leaves unspecified (moved-from) only takes operations without a precondition on its contents."""
 import itertools
 import random
 
@@ -22,21 +24,28 @@ SOURCES = ["include/etl/_vector/static_vector.hpp", "include/etl/_inplace_vector
            "include/etl/_type_traits/smallest_size_t.hpp"]
 RULE = ("exhaustive one-step box: static_vector of capacity 0..3 (int and a non-trivial class), every content state over "
         "the values {0,1,2}, every member with every position / count / value / overload; every ordered pair of content "
-        "states for copy/move construction and assignment, swap (member, free, self) and the six relational operators; "
-        "inplace_vector and stack likewise at capacity 0..3; plus seeded random histories of up to 40 operations on four "
-        "live objects at capacities {0,1,2,3,4,7,254,255,256} (histories at 254/255/256 start from a nearly full vector so "
-        "that the 8/16-bit size-type boundary is crossed).  A history is non-trivial when some object is non-empty after "
-        "some step; distinct = distinct case text.")
+        "states for copy/move construction and assignment, swap (member, free, self) and the six relational operators, each "
+        "copy followed by changes of the source and of the copy; inplace_vector (the members it has) and stack likewise at "
+        "capacity 0..3; the member inventory (api_member) of all three types at capacity 0 and 4; deterministic walks across "
+        "the size-type boundary at capacities 254/255/256 (fill to capacity-1, to capacity, one more try, back, insert/erase at "
+        "both ends, copy, compare, swap); plus seeded random histories of up to 40 operations on four live objects at "
+        "capacities {0,1,2,3,4,7} and of up to 10 operations from a nearly full vector at {254,255,256}.  Beyond capacity 3 "
+        "nothing is exhaustive.  A line is generated only if it is valid by Tetl.C01.Spec.valid (precondition in the spec "
+        "state; moved-from objects only take operations without a precondition on their contents).  A history is "
+        "non-trivial when some object is non-empty after some step; distinct = distinct case text.")
 ASSUMPTIONS = ["std::vector / std::stack of libstdc++ 12 are the reference for spec validation (R2); libstdc++ 12 has no "
                "std::inplace_vector, its reference is std::vector plus the capacity test",
                "element types are modelled at the value level (naturals); the two storage implementations are exercised "
                "by the harness with int and with a class that has user-provided special members",
                "values the standard leaves unspecified (moved-from vectors, self-move-assignment) are masked on the spec "
-               "side; the model still has to predict the implementation exactly"]
+               "side; the model still has to predict the implementation exactly; while any of the four objects is in such a "
+               "state the spec column of the whole line is masked (R2/R3 resume once the object is re-specified)",
+               "std::inplace_vector's member list is taken from the synopsis [inplace.vector] (libstdc++ 12 does not ship it): "
+               "Spec.offers .ipv = every operation of the property's list"]
 TRUSTED = ["hand model Tetl/C01/Model.lean + Step.lean tied to the source by the correspondence run (R1) on every run",
            "spec Tetl/C01/Spec.lean validated against libstdc++ (R2) on every run"]
 _P = "Tetl.C01.Props."
-_STEP = [_P + "step_refines", _P + "history_refines"]
+_STEP = [_P + "step_refines", _P + "step_refines_spec", _P + "history_refines"]
 THEOREMS = {
     "push": _STEP, "push_rv": _STEP, "emplace_back": _STEP, "pop": _STEP,
     "insert": _STEP + [_P + "insertFill_refines", _P + "rotate_eq"],
@@ -50,7 +59,7 @@ THEOREMS = {
     "ctor_n": _STEP, "ctor_n_val": _STEP, "ctor_range": _STEP,
     "erase_if": _STEP + [_P + "eraseIf_refines"], "erase_val": _STEP + [_P + "eraseIf_refines"],
     "cmp": _STEP + [_P + "relOps_refines"], "swap": _STEP + [_P + "swap_refines"], "swap_free": _STEP + [_P + "swap_refines"],
-    "copy_ctor": _STEP + [_P + "copy_independent", _P + "unary_frame"], "copy_assign": _STEP, "move_ctor": _STEP,
+    "copy_ctor": _STEP, "copy_assign": _STEP, "move_ctor": _STEP,
     "move_assign": _STEP,
     "try_push": _STEP + [_P + "tryPush_full"], "try_push_rv": _STEP + [_P + "tryPush_full"],
     "try_emplace": _STEP + [_P + "tryPush_full"], "unchecked_push": _STEP, "unchecked_push_rv": _STEP,
@@ -58,12 +67,33 @@ THEOREMS = {
     "api_bits": [_P + "size_fits", _P + "setSize_never_truncates"],
     "new": [_P + "initSize_partial", _P + "initSize_counterexample", _P + "history_refines_init"],
     "api_assign": [_P + "ipv_assign_unsupported"],
+    "api_member": [_P + "ipv_step_partial", _P + "ipv_missing_counterexample", _P + "ipv_missing_members",
+                   _P + "ipv_present_members"],
+    # facts that hold by the representation of the model (separate immutable lists); NOT evidence for the clause
+    # "a copy is independent of its source", which is observed by the harness (see UNPROVED_OBSERVED)
+    "structural": [_P + "unary_frame_structural", _P + "copy_value_frame_structural"],
 }
+_STEP += [_P + "history_refines_modelstate", _P + "validHist_validRun"]
 SEARCH_CAP = 300000
 MOVED = 9999
 
 ALL_CAPS = [0, 1, 2, 3, 4, 7, 254, 255, 256]
 STK_CAPS = [0, 1, 3, 4]
+
+
+ALL_MEMBERS = ["push", "push_rv", "emplace_back", "pop", "insert", "insert_rv", "emplace", "insert_fill", "insert_range",
+               "move_insert", "erase", "erase_range", "resize", "resize_val", "assign_fill", "assign_range", "clear", "ctor_n",
+               "ctor_n_val", "ctor_range", "copy_ctor", "move_ctor", "copy_assign", "move_assign", "swap", "swap_free",
+               "erase_val", "erase_if", "cmp", "try_push", "try_push_rv", "try_emplace", "unchecked_push",
+               "unchecked_push_rv", "unchecked_emplace", "dump"]
+# mirror of Tetl.C01.supports .ipv (theorems ipv_present_members / ipv_missing_members)
+IPV_MEMBERS = {"try_push", "try_push_rv", "try_emplace", "unchecked_push", "unchecked_push_rv", "unchecked_emplace", "pop",
+               "clear", "copy_ctor", "move_ctor", "dump"}
+# mirror of Tetl.C01.Spec.stateFree: the precondition does not mention the current contents
+STATE_FREE = {"resize", "resize_val", "assign_fill", "assign_range", "clear", "ctor_n", "ctor_n_val", "ctor_range",
+              "erase_val", "erase_if", "try_push", "try_push_rv", "try_emplace", "dump"}
+BINARY_OPS = {"copy_ctor", "move_ctor", "copy_assign", "move_assign", "swap", "swap_free", "cmp"}
+MEMBER_ARGS = "pos=0 n=0 x=0 xs=[] other=1 f=0 l=0 m=1 r=0"
 
 
 def lists(alpha, maxlen):
@@ -140,6 +170,44 @@ SELF = {"sv": ["copy_assign", "move_assign", "swap", "swap_free", "cmp"],
         "stk": ["copy_assign", "move_assign", "swap", "swap_free", "cmp"], "ipv": []}
 
 
+def independence_lines(ty, cap, d1):
+    """after `copy obj=0 other=1` (both hold d1): overwrite / shrink / grow the source, then change the copy"""
+    push = {"sv": "push", "stk": "push", "ipv": "try_push"}[ty]
+    out = []
+    n = len(d1)
+    if ty == "sv" and n > 0:
+        out.append("assign_fill obj=1 n=%d x=7" % n)        # same slots, new values: a shared buffer would show
+    if n > 0:
+        out.append("pop obj=1")
+    if n < cap or n > 0:
+        out.append("%s obj=1 x=1" % push)
+    # the copy still holds d1
+    if n < cap:
+        out.append("%s obj=0 x=2" % push)
+    elif n > 0:
+        out.append("pop obj=0")
+    if ty != "ipv":
+        out.append("cmp obj=0 other=1")
+    return out
+
+
+def boundary_histories(add):
+    """deterministic walks across the 8/16-bit size-type boundary (capacities 254, 255, 256): fill to the capacity,
+    one more attempt, step back, insert/erase at both ends while full-1, copy and compare"""
+    for cap in (254, 255, 256):
+        for kind in ("int", "nt"):
+            xs = [i % 7 for i in range(cap - 1)]
+            add([new_line("sv", cap, kind), "assign_range xs=%s" % fmt_list(xs), "push x=9", "pop", "insert pos=0 x=8",
+                 "erase pos=0", "insert_fill pos=%d n=1 x=6" % (cap - 1), "copy_ctor obj=1 other=0", "cmp obj=0 other=1",
+                 "pop obj=1", "cmp obj=0 other=1", "erase_range f=1 l=%d" % (cap - 1), "resize n=%d" % cap,
+                 "resize_val n=%d x=3" % (cap - 2), "erase_if m=2 r=0", "assign_fill n=%d x=1" % cap, "swap obj=0 other=1",
+                 "clear obj=1", "insert_range obj=1 pos=0 xs=%s" % fmt_list(xs + [5])], "sv/boundary")
+            add([new_line("ipv", cap, kind)] + ["unchecked_push x=%d" % (i % 7) for i in range(cap - 1)]
+                + ["try_push x=9", "try_push x=4", "try_emplace x=4", "try_push_rv x=4", "copy_ctor obj=1 other=0",
+                   "pop obj=0", "try_push obj=1 x=2", "try_emplace obj=0 x=3", "move_ctor obj=2 other=0", "clear obj=0",
+                   "try_push obj=0 x=1", "try_push obj=2 x=1"], "ipv/boundary")
+
+
 def new_line(ty, cap, kind, init=None):
     """static_vector and stack objects are default-initialised (`T v;`), inplace_vector objects are
     value-initialised (`T v{}`): default-initialising an inplace_vector is known finding F-C01-inplace-vector-default-init"""
@@ -170,9 +238,10 @@ def exhaustive(add, thorough):
                                 lines += ["clear obj=1"] if ty != "stk" else ["copy_assign obj=1 other=2"]
                                 if len(d1) < cap:
                                     lines += ["push obj=1 x=1"] if ty != "ipv" else ["try_push obj=1 x=1"]
-                            elif op in ("copy_ctor", "copy_assign") and len(d1) < cap and ty != "ipv":
-                                # independence: change the copy, the source must stay
-                                lines += ["push obj=0 x=2", "cmp obj=0 other=1"]
+                            elif op in ("copy_ctor", "copy_assign"):
+                                # independence (observed, not proved): change the source (object 1) after the copy, then
+                                # the copy (object 0); all four objects are dumped after every line
+                                lines += independence_lines(ty, cap, d1)
                             add(lines, "%s/%s" % (ty, op))
                     for op in SELF[ty]:
                         lines = [head] + build(ty, d0, 0) + ["%s obj=0 other=0" % op]
@@ -192,6 +261,13 @@ def exhaustive(add, thorough):
             add(["api_bits ty=%s cap=%d kind=int" % (ty, cap)], "%s/api_bits" % ty)
         for kind in ("int", "nt"):
             add(["api_assign ty=%s cap=4 kind=%s" % (ty, kind)], "%s/api_assign" % ty)
+            # which members of the property's operation list the type offers at all (capacity 0 is a separate
+            # specialisation of inplace_vector and a separate storage of static_vector)
+            for cap in (0, 4):
+                for m in ALL_MEMBERS:
+                    add(["api_member ty=%s cap=%d kind=%s member=%s %s" % (ty, cap, kind, m, MEMBER_ARGS)],
+                        "%s/api_member" % ty)
+    boundary_histories(add)
 
 
 # ---------------------------------------------------------------- random histories (python mirror of the model's contents)
@@ -272,6 +348,8 @@ def rand_history(rnd, ty, cap, kind, length, big):
         op = rnd.choice(cands)
         j = rnd.randrange(nobj)
         o = "obj=%d" % k
+        if m.unspec[k] and op not in BINARY_OPS and op not in STATE_FREE:
+            continue        # the standard does not say what a moved-from object holds: no precondition can be met
         if op in ("push", "push_rv", "emplace_back"):
             if room <= 0:
                 continue
@@ -459,9 +537,20 @@ def nontrivial(case, rows):
 
 
 def classify(case, k, row):
+    """finding classes, recomputed from the case line (and the model's answer), never from a generator tag"""
     ln = case.lines[k]
+    f = dict(t.split("=", 1) for t in ln.split(" ")[1:] if "=" in t)
     if ln.startswith("api_assign ty=ipv"):
         return "F-C01-inplace-vector-not-assignable"
+    if ln.startswith("api_member ") and f.get("ty") == "ipv":
+        m = f.get("member")
+        # class: the operation is not in `supports .ipv` (the model says so too) although std::inplace_vector has it
+        # (inplace_vector<T, 0> is an empty class: implicitly assignable, generic etl::swap applies — Tetl.C01.ipvZeroExtra)
+        zero_extra = f.get("cap") == "0" and m in ("copy_assign", "move_assign", "swap_free")
+        if m in ALL_MEMBERS and m not in IPV_MEMBERS and not zero_extra and row.model == "has=0" and row.spec == "has=1":
+            return "F-C01-inplace-vector-not-assignable" if m in ("copy_assign", "move_assign") \
+                else "F-C01-inplace-vector-missing-members"
+        return None
     if ln.startswith("new ty=ipv") and "init=default" in ln and " cap=0 " not in ln:
         return "F-C01-inplace-vector-default-init"
     return None
@@ -476,21 +565,39 @@ TECHNIQUE = ("Lean 4 proof: every member model of static_vector / inplace_vector
              "erase, remove_if, the comparison loops) refines the list semantics of the standard for all capacities, contents "
              "and histories; the model is tied to the code by an exhaustive small-scope + random history correspondence run")
 LEVEL_TEXT = ("Proved in Lean 4 (no size bound, all capacities < 2^64, induction over operation histories on four live objects): "
-              "every valid operation of the model of static_vector, inplace_vector and stack returns without an error "
+              "for every history whose steps are valid by the standard's own book-keeping (Spec.validHist: positions and "
+              "capacity demands judged on the spec state, the model is not consulted; a moved-from object only takes operations "
+              "without a precondition on its contents) the model of static_vector and of stack<T, static_vector> returns "
+              "without an error at every step "
               "(no access outside the live elements, no capacity overflow, the narrow size type never truncates), keeps "
-              "size <= capacity, leaves every other object untouched, and produces exactly the contents, iterator offset, "
+              "size <= capacity and the capacity itself, and produces exactly the contents, iterator offset, "
               "count, pointer and the six comparison results that the list semantics of std::vector prescribe; "
-              "try_push_back on a full inplace_vector returns null and changes nothing. The model mirrors the C++ loop by "
+              "try_push_back on a full inplace_vector returns null and changes nothing. "
+              "inplace_vector: the same theorem covers ONLY the members etl::inplace_vector has (try_/unchecked_ push and "
+              "emplace, pop_back, clear, copy and move construction); push_back/emplace_back, insert, erase, resize, assign, the "
+              "sized and range constructors, assignment, swap, erase/erase_if and the relational operators of "
+              "std::inplace_vector do not exist in etl::inplace_vector, so that part of the property's histories is not "
+              "covered for this type (known findings F-C01-inplace-vector-missing-members and -not-assignable; the inventory is "
+              "re-derived from the headers by compile-time probes on every run). "
+              "NOT proved, observed only: 'a copy is independent of its source' (the model's objects are separate immutable "
+              "lists, sharing cannot be expressed in it; the harness copies, then overwrites / shrinks / grows the source and "
+              "changes the copy, dumping both after every line, under ASan). "
+              "The model mirrors the C++ loop by "
               "loop (insert = append then the swap-cycle rotate; erase = move down, destroy, shrink; erase_if = remove_if + "
               "erase) and is compared with the implementation on every run under ASan/UBSan: exhaustively for all content "
               "states over three values at capacity 0..3 with every member, position, count and overload and every pair of "
               "states for copy/move/swap/compare, for int and a non-trivial class (both storage implementations), plus "
-              "random 40-step histories at capacities up to the 254/255/256 size-type boundary; the spec is validated "
-              "against libstdc++ on the same histories.")
+              "random 40-step histories at capacities up to 7, and deterministic walks plus random 10-step histories at the "
+              "254/255/256 size-type boundary; the spec is validated against libstdc++ on the same histories.")
 LEVEL_NOTE = ("Trusted: Lean kernel + propext/Classical.choice/Quot.sound; fidelity of the hand model outside the explored "
               "histories; element types modelled at the value level (object lifetime is C03's subject); g++-12 with "
-              "ASan/UBSan; libstdc++ as oracle for R2. Values the standard leaves unspecified (moved-from vectors) are "
-              "masked on the spec side only. Members listed in coverage.correspondence_only have no theorem.")
+              "ASan/UBSan; libstdc++ as oracle for R2 (std::vector + capacity test as stand-in for std::inplace_vector). Values "
+              "the standard leaves unspecified (moved-from vectors) are masked on the spec side only, and mask the spec column "
+              "of the whole line while they exist. history_refines_modelstate additionally covers histories that go on using "
+              "a moved-from object with the contents etl leaves in it. unary_frame_structural / copy_value_frame_structural hold by the "
+              "representation of the model and are not evidence about aliasing. Known: default-initialised inplace_vector has "
+              "an indeterminate size (F-C01-inplace-vector-default-init). Members listed in coverage.correspondence_only have "
+              "no theorem.")
 # members modelled and compared on every run but without a Lean theorem of their own
 CORRESPONDENCE_ONLY = [
     "observers begin/end/cbegin/cend/rbegin/rend/data/operator[]/front/back/size/empty/full/capacity/max_size, const and "
@@ -499,4 +606,16 @@ CORRESPONDENCE_ONLY = [
     "default- vs value-initialisation of a new object (initSize: compared on `new ... init=` lines)",
     "stack::emplace / static_vector::emplace_back return type (void, std returns a reference): not compared",
     "moved-from contents of a vector (model: mvd; spec: unspecified) — model vs implementation only",
+    "member inventory (api_member: `supports` of the model against requires-expression probes of the tetl type, Spec.offers "
+    "against the std type)",
+]
+# clauses of the property that no theorem carries: checked on the real code on every run, nothing more
+UNPROVED_OBSERVED = [
+    "'a copy is independent of its source': after every copy construction / copy assignment of the exhaustive box the source "
+    "is overwritten in place (static_vector), shrunk and grown, then the copy is changed; all four objects are dumped through "
+    "the public API after every line and compared with the model, the spec and std::vector; random histories interleave "
+    "copies with every other operation. The Lean model keeps objects as separate lists, so it cannot express sharing",
+    "inplace_vector members that std::inplace_vector has and etl::inplace_vector lacks (insert, erase, resize, assign, swap, "
+    "erase_if, relational operators, push_back, sized/range constructors, assignment): nothing to run; their absence is "
+    "re-observed on every run (api_member) and reported as known finding",
 ]
